@@ -11,6 +11,7 @@ import (
 	"encoding/json"
 	"flag"
 	"fmt"
+	"math"
 	"regexp"
 	"runtime"
 	"runtime/debug"
@@ -69,6 +70,7 @@ var (
 	seed     int64
 	selftest bool
 	allocCap = uint64(256 << 20)
+	deadline = 5 * time.Second
 	distinct = map[string]struct{}{}
 	variantTag string // e.g. the chunking of a stream input: part of the replay, not of the signature
 )
@@ -190,10 +192,13 @@ func call(f func() error) outcome {
 	var ms0, ms1 runtime.MemStats
 	runtime.ReadMemStats(&ms0)
 	var err error
-	p, h, msg := vh.Guard(5*time.Second, func() { err = f() })
+	p, h, msg := vh.Guard(deadline, func() { err = f() })
 	runtime.ReadMemStats(&ms1)
 	alloc := ms1.TotalAlloc - ms0.TotalAlloc
 	switch {
+	case h && alloc > allocCap:
+		// the deadline passed while the call was busy obtaining memory: that is the allocation's fault
+		return outcome{"runaway-allocation", fmt.Sprintf("%d bytes allocated by one call (which then missed the deadline)", alloc), alloc}
 	case h:
 		return outcome{"hang", msg, alloc}
 	case p:
@@ -271,6 +276,8 @@ func main() {
 	debug.SetMemoryLimit(3 << 30)
 	if *child {
 		res = vh.NewResult()
+		deadline = 15 * time.Second // a stuck decoder ends the child anyway; be generous under load
+		debug.SetMemoryLimit(math.MaxInt64) // the address-space limit is the guard here; a soft limit only makes the GC thrash
 		childMain()
 		return
 	}
